@@ -392,6 +392,35 @@ def native : NumOps where
   round := lift1 Float.round
   trunc := fun x => if x.neg then lift1 Float.ceil x else lift1 Float.floor x
 
+/-- The sign of a NaN that an arithmetic operation produces is platform-defined (x86 gives the
+    negative "indefinite" NaN for invalid operations, other targets and constant folding the
+    positive one) and Lean's `Float.toBits` hides it.  `native` yields the positive canonical
+    NaN; this variant yields the negative one, so that the only place where the sign is
+    observable — the total order used by `median` / `percentile` — can be compared under both
+    conventions. -/
+def nativeNegNaN : NumOps :=
+  let fix (r : F64) : F64 := if r.isNaN then ⟨0xFFF8000000000000⟩ else r
+  { add := fun a b => fix (native.add a b)
+    sub := fun a b => fix (native.sub a b)
+    mul := fun a b => fix (native.mul a b)
+    div := fun a b => fix (native.div a b)
+    rem := fun a b => fix (native.rem a b)
+    powf := fun a b => fix (native.powf a b)
+    sqrt := fun a => fix (native.sqrt a)
+    sin := fun a => fix (native.sin a)
+    cos := fun a => fix (native.cos a)
+    tan := fun a => fix (native.tan a)
+    asin := fun a => fix (native.asin a)
+    acos := fun a => fix (native.acos a)
+    atan := fun a => fix (native.atan a)
+    ln := fun a => fix (native.ln a)
+    log10 := fun a => fix (native.log10 a)
+    exp := fun a => fix (native.exp a)
+    floor := fun a => fix (native.floor a)
+    ceil := fun a => fix (native.ceil a)
+    round := fun a => fix (native.round a)
+    trunc := fun a => fix (native.trunc a) }
+
 /-- compiler-rt `__powidf2` (what `f64::powi` lowers to), over the given multiply/divide -/
 def powi (ops : NumOps) (a : F64) (b : Int) : F64 :=
   let recip := b < 0
